@@ -8,6 +8,7 @@ package main
 
 import (
 	"bufio"
+	"context"
 	"encoding/json"
 	"flag"
 	"fmt"
@@ -20,13 +21,16 @@ import (
 	"sync/atomic"
 	"time"
 
+	"github.com/pinealctx/neptune/syncx/pipe/mux"
 	"github.com/pinealctx/neptune/ulog"
+
+	"verif/harness/internal/qx"
 
 	"verif/harness/internal/tr"
 )
 
 var opNames = []string{"get", "add", "upd", "del", "uoa", "utl", "utr"}
-var keyTypes = []string{"int", "mix", "neg", "crcpair", "str", "const", "crc", "u64", "minmix", "i8"}
+var keyTypes = []string{"int", "mix", "neg", "crcpair", "str", "const", "crc", "u64", "minmix", "i8", "ptrkey", "mod"}
 
 // schemes in which distinct keys have equal HashedInt(): one worker, but different keys for store and cache
 var collide = map[string]bool{"mix": true, "crcpair": true, "const": true, "minmix": true}
@@ -59,13 +63,33 @@ func pattern(rng *rand.Rand, pct int, max int) []int {
 	return out
 }
 
-func randPlan(rng *rand.Rand, nk, n int) []step {
+func randPlan(rng *rand.Rand, nk, n int, long bool) []step {
 	var out []step
 	failPct := []int{0, 10, 25, 50}[rng.Intn(4)]
 	gatePct := []int{0, 15, 35}[rng.Intn(3)]
 	hot := rng.Intn(nk) + 1
 	cancelPct := []int{0, 8, 16}[rng.Intn(3)]
+	if rng.Intn(6) == 0 { // shape: a cache filled and then emptied by removals, before anything else
+		for k := 1; k <= nk; k++ {
+			out = append(out, step{Op: "add", K: k, F: []int{}, G: []int{}})
+		}
+		for k := 1; k <= nk; k++ {
+			out = append(out, step{Op: "del", K: k, F: []int{}, G: []int{}})
+		}
+	}
+	if long { // a queue longer than a byte can count: 257 calls behind one gated call
+		out = append(out, step{Op: "upd", K: hot, F: []int{}, G: []int{1}})
+		for i := 0; i < 257; i++ {
+			out = append(out, step{Op: opNames[rng.Intn(len(opNames))], K: rng.Intn(nk) + 1, F: pattern(rng, failPct, 2), G: []int{}})
+		}
+		out = append(out, step{Op: "rel"})
+	}
 	for i := 0; i < n; i++ {
+		if rng.Intn(40) == 0 { // a long run of one cheap call, around the widths of narrow counters
+			out = append(out, step{Op: "rep", K: rng.Intn(nk) + 1,
+				ID: []int{255, 256, 257, 65535, 65536, 65537}[rng.Intn(6)]})
+			continue
+		}
 		if x := rng.Intn(100); x < 27 {
 			out = append(out, step{Op: "rel"})
 			continue
@@ -91,9 +115,12 @@ func randPlan(rng *rand.Rand, nk, n int) []step {
 
 func randCfg(rng *rand.Rand, src string) config {
 	c := config{Src: src}
-	c.NW = []int{1, 2, 3, 5, 8, 0, 1, 2, 3, 5, 8, 300}[rng.Intn(12)] // 0 = the default (127)
+	c.NW = []int{1, 2, 3, 5, 8, 0}[rng.Intn(6)] // 0 = the default (127)
+	if rng.Intn(40) == 0 {
+		c.NW = 300
+	}
 	c.Facade = []string{"map", "lru", "map", "lru", "bmap", "blru"}[rng.Intn(6)]
-	c.Cap = []int{0, 1, 2, 3, 8, 100}[rng.Intn(6)] // 0: nothing (but rows of size 0) stays cached
+	c.Cap = []int{0, 1, 2, 3, 8, 100}[rng.Intn(6)]                        // 0: nothing (but rows of size 0) stays cached
 	c.Deep = []int{1, 2, 4, 0, -3, defaultDeep, defaultDeep}[rng.Intn(7)] // 0, negative: unbounded
 	c.NK = rng.Intn(6) + 1
 	c.KT = keyTypes[rng.Intn(len(keyTypes))]
@@ -102,7 +129,12 @@ func randCfg(rng *rand.Rand, src string) config {
 	}
 	c.Sized = rng.Intn(3) == 0
 	c.Ptr = rng.Intn(3) == 0
-	c.Late = c.Ptr && rng.Intn(2) == 0
+	// dynamic kinds of rows, of the `data` argument and of the store's failures
+	c.VK = []string{"", "", "", "", "str", "slice", "map", "nilp", "nil"}[rng.Intn(9)]
+	c.DK = []string{"val", "val", "ptr", "nil"}[rng.Intn(4)]
+	c.EK = []string{"", "", "", "dupkey", "closed", "qfull", "sync", "canceled", "deadline", "wrapped"}[rng.Intn(10)]
+	c.WrapNF = rng.Intn(4) == 0
+	c.Late = (c.Ptr || c.VK == "slice" || c.VK == "map") && rng.Intn(2) == 0
 	c.StopAt = -1
 	switch rng.Intn(8) { // life-cycle orders: calls before Start, Stop with work accepted, Stop before Start
 	case 0:
@@ -222,6 +254,52 @@ func runStress(w *tr.W, rng *rand.Rand, cfg config, threads, per int, m stressMo
 	wd.finish(w)
 }
 
+// runExits: thousands of tiny life cycles in which ONE event - Stop, called by two goroutines at the
+// same instant - releases every parked worker of a fresh group at once.  One compact event per batch:
+// how many groups reported their exit (WaitStop) and how many goroutines of the package are left.
+func runExits(w *tr.W, rng *rand.Rand, rounds int) {
+	x := qx.New(0)
+	stopped := 0
+	for i := 0; i < rounds; i++ {
+		nw := 1 + rng.Intn(5)
+		var g *mux.WorkerGrp
+		if i%2 == 0 {
+			g = mux.NewWorkGrpWithMapCache(mux.WithSize(nw))
+		} else {
+			g = mux.NewWorkGrpWithLRU(int64(rng.Intn(3)), mux.WithSize(nw))
+		}
+		g.Start()
+		if i%3 == 0 {
+			runtime.Gosched() // some workers are parked already, some are still on their way
+		}
+		var gate int32
+		var wg sync.WaitGroup
+		for t := 0; t < 2; t++ {
+			wg.Add(1)
+			go func() {
+				defer wg.Done()
+				for atomic.LoadInt32(&gate) == 0 {
+				}
+				g.Stop()
+			}()
+		}
+		atomic.StoreInt32(&gate, 1)
+		wg.Wait()
+		ctx, cancel := context.WithTimeout(context.Background(), 2*time.Second)
+		if g.WaitStop(ctx) == nil {
+			stopped++
+		}
+		cancel()
+	}
+	if err := x.Settle(); err != nil {
+		w.Emit(tr.E{"ev": "stuck", "what": "no quiescence after exit rounds: " + err.Error()})
+		return
+	}
+	left := qx.StacksContaining("neptune/syncx/pipe/mux.")
+	w.Emit(tr.E{"ev": "reset", "nk": 1, "serial": true, "src": "exits", "emux": 0, "gmux": 0, "edeep": 0, "gdeep": 0})
+	w.Emit(tr.E{"ev": "exits", "rounds": rounds, "stopped": stopped, "left": left})
+}
+
 func main() {
 	plans := flag.String("plans", "", "directory of TLC-generated plans")
 	out := flag.String("out", "steps.ndjson", "step traces")
@@ -230,6 +308,8 @@ func main() {
 	nrand := flag.Int("rand", 100, "random plans")
 	nstress := flag.Int("nstress", 10, "stress runs")
 	ncold := flag.Int("ncold", 40, "cold-start rounds")
+	nexit := flag.Int("nexit", 1000, "simultaneous-exit rounds")
+	nlong := flag.Int("nlong", 1, "random plans with a 257-call queue")
 	flag.Parse()
 	ulog.SetLogLevelStr("error")
 	rng := rand.New(rand.NewSource(*seed))
@@ -250,6 +330,10 @@ func main() {
 			if p[0].L {
 				cfg.Facade = "lru"
 			}
+			cfg.VK = []string{"", "", "str", "", "slice", "", "map"}[i%7]
+			cfg.DK = []string{"val", "ptr", "val", "nil", "val"}[i%5]
+			cfg.EK = []string{"", "dupkey", "", "closed", "", "canceled", "", "wrapped", "", "deadline", ""}[i%11]
+			cfg.WrapNF = i%6 == 5
 			cfg.StopAt = -1
 			switch i % 9 {
 			case 4:
@@ -266,7 +350,16 @@ func main() {
 	}
 	for i := 0; i < *nrand; i++ {
 		cfg := randCfg(rng, "rand")
-		runSteps(w, cfg, randPlan(rng, cfg.NK, 20+rng.Intn(40)))
+		t0 := time.Now()
+		long := i < *nlong
+		if long { // the long queue is about the queue, not about many workers or a tiny queue
+			cfg.NW, cfg.Deep = []int{1, 2, 3}[i%3], defaultDeep
+		}
+		pl := randPlan(rng, cfg.NK, 20+rng.Intn(40), long)
+		runSteps(w, cfg, pl)
+		if d := time.Since(t0); d > 300*time.Millisecond && os.Getenv("C15_SLOW") != "" {
+			fmt.Fprintf(os.Stderr, "slow plan %d: %v steps=%d nw=%d\n", i, d, len(pl), cfg.NW)
+		}
 	}
 	w.Close()
 	for i := 0; i < *nstress; i++ {
@@ -285,6 +378,9 @@ func main() {
 		}
 		runStress(sw, rng, cfg, 2+rng.Intn(4), 1+rng.Intn(3),
 			stressMode{barrier: true, lateStart: i%2 == 0, stopRace: i%7 == 3})
+	}
+	for done := 0; done < *nexit; done += 200 {
+		runExits(sw, rng, 200)
 	}
 	sw.Close()
 	fmt.Printf("step_events=%d stress_events=%d\n", w.N(), sw.N())
